@@ -57,13 +57,13 @@ type effAnalysis struct {
 	spawns  map[*ssa.Function][]spawnSite
 	inScope func(*ssa.Function) bool
 	changed bool
-	all     []*ssa.Function                        // every analysed function
+	all     []*ssa.Function                         // every analysed function
 	callers map[*ssa.Function][]ssa.CallInstruction // static call sites, built on demand
 }
 
 type spawnSite struct {
 	In      ssa.Instruction
-	Fn      *ssa.Function // spawned closure/function
+	Fn      *ssa.Function   // spawned closure/function
 	More    []*ssa.Function // further functions the spawned value may be (several call sites of a helper)
 	Closure *ssa.MakeClosure
 	Group   ssa.Value // the WaitGroup receiver, nil for a bare go statement
